@@ -279,7 +279,8 @@ def run_files(chk, tagname):
             ebargs = ['--ebinalg', 'LIST', '--ebinning', str(edges)] if ebinalg == 'LIST' else ['--ebinalg', 'EQP', '--ebins', '3', '--emin', '1.', '--emax', '12.']
             chk.case(desc, nontrivial=True)
             try:
-                o = xpbin(**PARSER.parse_args([path, '--overwrite', 'True', '--algorithm', 'PCUBE', '--irfname', irf, '--weights', weights, '--acceptcorr', acc,
+                o = xpbin(**PARSER.parse_args([path, '--overwrite', 'True', '--algorithm', 'PCUBE'] + (['--irfname', irf] if wcol == 'W_MOM' else []) + [   # left to its default, the response set is the one the file names
+                                               '--weights', weights, '--acceptcorr', acc,
                                                '--mc', mc, '--weightcol', wcol] + ebargs).__dict__)[0]
             except BaseException as e:
                 chk.fail('impl', 'xpbin PCUBE failed: %s: %s (%s)' % (type(e).__name__, e, desc), dict(oracle='pcube', args=desc, error=str(e)))
